@@ -7,6 +7,9 @@ CONSTANTS
   ModeOf <- MCModeOf
   RulesKey = "id"
   IdsIdentifyContent = TRUE
+  IncOf <- MCIncOf
+  KeepHigherIncarnation = FALSE
+  StateEarly = FALSE
   InitScenarios = {"fresh"}
   InitDocs <- DocsEmptyId
   MaxReconf = 2
